@@ -70,10 +70,15 @@ def _gen_csvs(seed, tier, outdir):
 
     def write(name, rows):
         p = os.path.join(outdir, name)
-        with open(p, "w") as f:
+        with open(p, "w", encoding="utf-8") as f:
             f.write("City,Region,Country,Latitude,Longitude\n")
+            # names a real gazetteer has: a leading '#', quoted fields with commas and quotes, leading
+            # blanks, apostrophes, non-ASCII, semicolons - every record counts, whatever its name
+            styles = ["c%d", "#%d Mine", " lead%d", "O'Brien %d", "Z\u00fcrich %d", "\"Quoted, City %d\"",
+                      "semi;colon%d", "\"say \"\"hi\"\" %d\"", "c%d", "c%d"]
             for i, (la, lo) in enumerate(rows):
-                f.write("c%d,R,xx,%.7f,%.7f\n" % (i, la, lo))
+                name = styles[(i * 7 + len(rows)) % len(styles)] % i
+                f.write("%s,R,xx,%.7f,%.7f\n" % (name, la, lo))
         files.append((p, len(rows)))
 
     big = 300 if tier == "thorough" else 70
@@ -250,3 +255,13 @@ def overflow_band(seed, tier):
     out["coverage"]["outcomes"] = hist
     out["distinct_nontrivial"] = count
     return out
+
+
+def capi_threads(seed, tier):
+    """C08, last sentence, at the C boundary: the whole script of client histories replayed by 8 / 16
+    threads at once (each thread its own handles and matrices) must give every thread the output of a
+    single-threaded run, in dev and release builds of the static library."""
+    t = 16 if tier == "thorough" else 8
+    cfgs = [dict(profile="debug", header="capi", asan=False, threads=t),
+            dict(profile="release", header="capi", asan=False, threads=t)]
+    return _capi(seed, tier, cfgs, "C driver: the capi script replayed concurrently by %d threads, per-thread output must equal the single-threaded expected output (dev and release libkodama.a)" % t)
